@@ -49,12 +49,20 @@ pub fn open_as_container_pack(reader: Reader) -> Result<ContainerPack> {
         Err(_) => {
             //Check at end
             let mut buffer_reader = [0u8; 64];
+            if reader.size() < Size::new(64) {
+                return Err(ErrorKind::NotAJbk.into());
+            }
             reader
                 .create_stream((reader.size() - Size::new(64)).into(), Size::new(64), false)?
                 .read_exact(&mut buffer_reader)?;
             buffer_reader.reverse();
             let end_reader: Reader = buffer_reader.into();
             let pack_header = end_reader.parse_block_at::<PackHeader>(Offset::zero())?;
+            if reader.size() < pack_header.file_size {
+                return Err(format_error!(
+                    "Pack declares a size bigger than what is available"
+                ));
+            }
             let origin = reader.size() - pack_header.file_size;
             (pack_header, origin.into())
         }
